@@ -285,12 +285,16 @@ func runC12(env *run.Env, sc *c12Sched, refEvents map[string][]sim.Event) c12Res
 		lc.Cli.Hostname = "router"
 		lc.Cli.Password = "secret"
 		lc.Cli.Park = park
+		// The holder's connection helper outlives it like a hung ssh
+		// client would; the lock must not depend on that child.
+		lc.Cli.LingerMs = 1500
 		spec := filepath.Join(dir, "spec.json")
 		lc.Cli.Write(spec)
 		simulate = filepath.Join(env.Verif, ".work/bin/simcli") + " " + spec
 		// Contenders use a spec without parking.
 		c2 := *lc.Cli
 		c2.Park = nil
+		c2.LingerMs = 0
 		c2.Session = "contender"
 		c2.Write(filepath.Join(dir, "spec2.json"))
 	}
@@ -624,6 +628,7 @@ func checkC12(tier, replay string) int {
 	rep.Assumptions = []string{
 		"crash = SIGKILL of the process; flock release semantics at power loss are the kernel's",
 		"status/history/log snapshots are content hashes taken while the holder is parked",
+		"the holder's simulated connection helper ignores SIGHUP and stays alive 1.5 s after the holder is gone (hung ssh client)",
 		"holders and stress processes run with GOGC=1 (a collection after every few allocations), so that a lock tied to an unreferenced file handle is released as early as it can be",
 	}
 	var scheds []*c12Sched
